@@ -22,8 +22,14 @@ Pr == Traces[tid].pr
 Focus == ToSet(Traces[tid].focus)
 InFocus(v) == v # "ok" /\ SubSeq(v, 1, 3) \in Focus
 
+\* taint: clauses of recorded findings that belong to ANOTHER property's check.  Once such a
+\* root cause has occurred, what follows in this trace may be its consequence; the trace ends
+\* there with the verdict "tainted" (the owning property's check reports the finding itself).
+Taint == IF "taint" \in DOMAIN Traces[tid] THEN ToSet(Traces[tid].taint) ELSE {}
+
 Accept(v, upd) ==
-  \/ ~InFocus(v) /\ verdict' = "ok" /\ upd
+  \/ ~InFocus(v) /\ v \notin Taint /\ verdict' = "ok" /\ upd
+  \/ ~InFocus(v) /\ v \in Taint /\ verdict' = "tainted" /\ UNCHANGED obsvars
   \/ InFocus(v) /\ verdict' = v /\ UNCHANGED obsvars
 
 \* C17: observable events of this run and of the reference run (same schedule, small
